@@ -90,6 +90,10 @@ String equality evaluated inside the kernel is very slow, defeq of string litera
 the generated items in the hand tables are computed by the `#eval` below (native code, not trusted) and the kernel
 only checks, by `rfl`, that the table entries at these positions *are* the generated items. -/
 
+/-- marker: the `#eval` below computes the position certificates (`siteIdx`, `loopIdx`, `loopCoverIdx`, `citedIdx`,
+`closureIdx`) and reports every problem of the inventory at once -/
+def nondetInventoryCertificates : Unit := ()
+
 open Lean Elab Command in
 #eval show CommandElabM Unit from do
   -- every problem is reported (not only the first one); a certificate that cannot be computed stays undefined,
